@@ -28,6 +28,9 @@ def gribigo_panic(stderr):
     """Returns the panic text if stderr shows a Go panic whose goroutine stack starts (after runtime frames) inside
     openconfig/gribigo rather than inside the harness; None otherwise."""
     i = stderr.find("panic:")
+    j0 = stderr.find("fatal error:")     # e.g. "concurrent map read and map write": the runtime kills the process
+    if i < 0 or (0 <= j0 < i):
+        i = j0
     if i < 0:
         return None
     txt = stderr[i:]
@@ -37,7 +40,7 @@ def gribigo_panic(stderr):
     stack = txt[j:].split("\n\n")[0]
     for line in stack.splitlines():
         line = line.strip()
-        if not line or line.startswith(("goroutine ", "panic(", "runtime.", "/", "created by", "[signal")):
+        if not line or line.startswith(("goroutine ", "panic(", "runtime.", "/", "created by", "[signal", "internal/", "sync.")):
             continue
         if line.startswith("github.com/openconfig/gribigo/"):
             return txt[:20000]
